@@ -48,6 +48,19 @@ def lib_moments(shape):
     return [shapepy.IntegrateShape.polynomial(shape, a, b) for a, b in EXPONENTS]
 
 
+def rule_exact(ea, eb, regions):
+    """the documented rule (open Newton-Cotes with 3 + (a+1) + b + degree nodes per segment) integrates
+    x^a y^b dy exactly on every boundary segment of the given regions (same criterion as C04)"""
+    maxdeg = 1
+    for reg in regions:
+        if reg is None:
+            continue
+        for c in O.region_curves(reg):
+            for seg in c:
+                maxdeg = max(maxdeg, len(seg) - 1)
+    return maxdeg == 1 or (ea + eb + 2) * maxdeg - 1 <= (3 + ea + 1 + eb + maxdeg) - 1
+
+
 def case(ctx):
     rng = ctx.rng
     if ctx.index % 5 == 4:
@@ -129,6 +142,12 @@ def case(ctx):
                 judged_all = False
                 continue
             for k, (ea, eb) in enumerate(EXPONENTS):
+                if source.startswith("library") and not rule_exact(ea, eb, [ra, rb] + [snaps[n] for n in needs]):
+                    # the library's documented quadrature is not exact for this integrand on these segment
+                    # degrees (C04 bounds that error); its values then do not add up exactly although the
+                    # regions do -- the oracle moments above judge the identity itself
+                    case.count("identity:library-rule-not-exact-skipped")
+                    continue
                 try:
                     lhs, rhs = fn(table, k)
                 except Exception as exc:
